@@ -7,6 +7,18 @@ import (
 	"github.com/smarthome-go/homescript/v3/homescript/errors"
 )
 
+// DeepCastCatchable is DeepCast for `as` and annotated lets: like on the VM, a failed cast is a
+// normal exception which `try` can catch, not a fatal error.
+func DeepCastCatchable(val Value, typ ast.Type, span errors.Span, allowCasts bool) (*Value, *Interrupt) {
+	res, i := DeepCast(val, typ, span, allowCasts)
+	if i != nil {
+		if err, isErr := (*i).(RuntimeErr); isErr && err.ErrKind == CastErrorKind {
+			return nil, NewThrowInterrupt(span, "Cast error: "+err.MessageInternal)
+		}
+	}
+	return res, i
+}
+
 // TODO: set maximum recursion here
 func DeepCast(val Value, typ ast.Type, span errors.Span, allowCasts bool) (*Value, *Interrupt) {
 	// TODO: is this OK?
